@@ -56,7 +56,7 @@ def build_bundle_def(name, tree, defs):
 def leaf_target(of):
     py = of["py"]
     if py["k"] == "ext":
-        em = h.ExternalModule(name=py["name"], port_list=[h.Port(name=p["n"], width=p["w"]) for p in of["ports"]], paramtype=dict)
+        em = h.ExternalModule(name=py["name"], domain=py.get("domain"), port_list=[h.Port(name=p["n"], width=p["w"]) for p in of["ports"]], paramtype=dict)
         return em(dict(py.get("params", {})))
     if py["k"] == "prim":
         prim = getattr(h.primitives, py["name"])
